@@ -422,4 +422,52 @@ Section Roundtrip.
       destruct (lookup k' av); reflexivity.
     - apply merge_ann_only_other_ann. cbn in R. destruct (lookup k' anns); [discriminate|reflexivity].
   Qed.
+
+  (* C16 isolation, touch: the dummy write that re-triggers a cycle goes to the storage's touch key(s) and the marker only;
+     every other annotation - handlers' records, user data - and every top-level field other than metadata read as before. *)
+  Lemma touch_keys_ann_only prefix body ks v : forall p p',
+    ann_only p -> touch_keys prefix body p ks v = Ok p' -> ann_only p'.
+  Proof.
+    induction ks as [|k ks IH]; intros p p' A H; [cbn in H; injection H as <-; exact A|].
+    cbn [touch_keys] in H. destruct (differs (resolve body (ann_path k)) v); [|exact (IH p p' A H)].
+    destruct (ensure p (ann_path k) v) as [p1| | |] eqn:E; try discriminate. cbn [bind] in H.
+    destruct (store_marker prefix body p1) as [p2| | |] eqn:M; try discriminate. cbn [bind] in H.
+    apply (IH p2 p' (store_marker_ann_only _ _ _ _ (ensure_ann_only _ _ _ _ A E) M) H).
+  Qed.
+
+  Lemma touch_keys_other prefix body ks v : forall p p' k',
+    ~ In k' ks -> k' <> (prefix ++ "/" ++ marker_name)%string ->
+    touch_keys prefix body p ks v = Ok p' -> resolve p' (ann_path k') = resolve p (ann_path k').
+  Proof.
+    induction ks as [|k ks IH]; intros p p' k' NI NM H; [cbn in H; injection H as <-; reflexivity|].
+    assert (NI' : ~ In k' ks) by (intro; apply NI; right; assumption).
+    cbn [touch_keys] in H. destruct (differs (resolve body (ann_path k)) v); [|exact (IH p p' k' NI' NM H)].
+    destruct (ensure p (ann_path k) v) as [p1| | |] eqn:E; try discriminate. cbn [bind] in H.
+    destruct (store_marker prefix body p1) as [p2| | |] eqn:M; try discriminate. cbn [bind] in H.
+    rewrite (IH p2 p' k' NI' NM H), (store_marker_other prefix body p1 p2 k' NM M).
+    rewrite !ann_path_eq in *. apply (ensure_resolve_sibling p meta k' k v p1); [|exact E].
+    intro; subst; apply NI; left; reflexivity.
+  Qed.
+
+  Theorem ann_touch_isolated prefix v1 verbose tk body v patch k' :
+    ptouch dg (PAnn prefix v1 verbose tk) body (JObj []) v = Ok patch ->
+    ~ In k' (full_keys dg prefix v1 body tk) -> k' <> (prefix ++ "/" ++ marker_name)%string ->
+    resolve (merge body patch) (ann_path k')
+    = match resolve body ["metadata"; "annotations"] with Some (JObj a) => lookup k' a | _ => None end
+    /\ (forall f, f <> "metadata" -> lookup f (obj_of (merge body patch)) = lookup f (obj_of body)).
+  Proof.
+    cbn [ptouch]. intros H NI NM.
+    assert (A : ann_only patch) by (eapply touch_keys_ann_only; [left; reflexivity|exact H]).
+    assert (R : resolve patch (ann_path k') = None) by (rewrite (touch_keys_other _ _ _ _ _ _ k' NI NM H); reflexivity).
+    split; [|intros f Nf; apply merge_ann_only_other_top; assumption].
+    destruct A as [->|(anns & ->)].
+    - rewrite merge_obj. unfold ann_path. cbn [merge_fields].
+      destruct body as [| | | | |kvs|]; cbn [obj_of resolve lookup]; try reflexivity.
+      destruct (lookup "metadata" kvs) as [m|]; cbn [resolve]; [|reflexivity].
+      destruct m as [| | | | |mkv|]; cbn [resolve]; try reflexivity.
+      destruct (lookup "annotations" mkv) as [a|]; cbn [resolve]; [|reflexivity].
+      destruct a as [| | | | |av|]; cbn [resolve]; try reflexivity.
+      destruct (lookup k' av); reflexivity.
+    - apply merge_ann_only_other_ann. cbn in R. destruct (lookup k' anns); [discriminate|reflexivity].
+  Qed.
 End Roundtrip.
